@@ -33,10 +33,15 @@ def render_file(rng, f, plain=False):
             sep = ' ' if plain else rng.choice([' ', '  ', '\t'])
             if not plain and rng.random() < 0.05:      # very wide separators / long edge lines (still below the buffer size)
                 sep = rng.choice([' ', '\t']) * rng.choice([50, 200, 300])
+            # leading zeros are ordinary decimal notation (ids 01 002, weights 007 / 03.50); not for negative ids
+            zs = (lambda x: ('0' * rng.randint(1, 2) + str(x)) if (not plain and x >= 0 and rng.random() < 0.06) else str(x))
             if ln['w'] == OMITTED:
-                out.append(sep.join([tag, str(ln['s']), str(ln['t'])]))
+                out.append(sep.join([tag, zs(ln['s']), zs(ln['t'])]))
             else:
-                out.append(sep.join([tag, str(ln['s']), str(ln['t']), render_weight(rng, ln['w'])]))
+                wtxt = render_weight(rng, ln['w'])
+                if not plain and ln['w'] >= 0 and rng.random() < 0.06:
+                    wtxt = '0' * rng.randint(1, 2) + wtxt
+                out.append(sep.join([tag, zs(ln['s']), zs(ln['t']), wtxt]))
     txt = '\n'.join(out)
     if f['nl'] and out:
         txt += '\n'
